@@ -264,15 +264,22 @@ fn run_batch(args: &[String]) -> i32 {
     };
     let digests = args.iter().any(|a| a == "--digests");
     if engine == "poll" {
+        simcore::watchdog::start(prop.clone(), engine.clone(), "C20", replay_dir.clone());
         return poll::run_batch(&prop, seed, start, runs, &replay_dir, &known, digests);
     }
+    simcore::watchdog::start(prop.clone(), engine.clone(), "C17", replay_dir.clone());
+    // calibration calls every corpus function once: it must not hang either
+    simcore::watchdog::begin_case(0, serde_json::json!({"case": {"kind": "Reg", "fns": [], "threads": [[]], "shards": 4, "salt": 0, "fastrand_seed": 1, "probe": false}, "sched": {"pct_depth": 0, "seed": 1}, "note": "hang while calling every corpus function once (calibration)"}));
     calibrate();
+    simcore::watchdog::end_case();
     let mut res = WorkerResult { property: prop.clone(), engine: engine.clone(), rule: RULE.to_string(), ..Default::default() };
     let mut known_hits = BTreeSet::new();
     for run in start..start + runs {
         let run_seed = mix(&[seed, hash_str(&prop), hash_str(&engine), run]);
         let (case, sched) = gen_case(&prop, run_seed);
+        simcore::watchdog::begin_case(run_seed, serde_json::to_value(SReplay { case: case.clone(), sched: sched.clone() }).unwrap());
         let (out, rp) = execute(&case, &sched, &prop);
+        simcore::watchdog::end_case();
         res.runs += 1;
         res.ops += case.threads.iter().map(|t| t.len() as u64).sum::<u64>();
         for (k, v) in &rp.counters {
